@@ -252,6 +252,8 @@ def run(ctx):
     mds["mistune.html"] = mistune.html
     docs = documents(ctx)
     correspondence(ctx, mds["ast-core"], docs)
+    # C16Doc is about parseDoc of the concrete model: its correspondence on documents WITH their CR / CRLF / mixed line ends (the model normalises itself)
+    common.model_tie(ctx, [d for d in docs if d is not None and ("\r" in d or "\n" in d)], "core", "doc", limit=(800 if ctx.quick() else 8000))
     n = oracle(ctx, mds, docs)
     n += read_part(ctx)
     n += include_part(ctx)
